@@ -9,6 +9,11 @@ func checkC05(r *Run) {
 	r.NotDec = "acceptance by an independent follower for concrete pools (follows structurally from C01/C02/C04 rules on the same functions)"
 	ruleChainConfigPassthrough(r, "C05-R4")
 	const f = "visor.Visor.createBlockFromTxns"
+	// the candidates are the whole pool (raw), not a cached verdict: the conflict winner is decided among all of them
+	for _, cs := range r.RequireAtCall("C05-R1", "visor.Visor.createBlock", f, 1, req("pool read", "ok(iface:visor.UnconfirmedTransactionPooler.AllRawTransactions($0.unconfirmed, $1))")) {
+		r.Check("C05-R1", "visor.Visor.createBlock: the block is made from all raw transactions of the unconfirmed pool", r.P.Pos(cs.Pos()),
+			r.argTerm(cs, 2) == "iface:visor.UnconfirmedTransactionPooler.AllRawTransactions($0.unconfirmed, $1)#0" && r.argTerm(cs, 1) == "$1" && r.argTerm(cs, 3) == "$2", r.argTerm(cs, 2))
+	}
 	v := "iface:visor.Blockchainer.VerifySingleTxnSoftHardConstraints($0.blockchain, $1, $2[i], $0.Config.Distribution, $0.Config.CreateBlockVerifyTxn, 1)"
 	r.RequireAtStore("C05-R1", f, "local:varargs[0] := $2[i]", 1, req("kept only if hard and soft rules pass with the block-creation parameters (signed)", "ok("+v+")"))
 	F := "fold[acc*=nil; append(acc*, [$2[i]])]"
